@@ -3,6 +3,7 @@
                               entry = "d" key "=" value   a detected value (default_environment())
                                     | "o" key "=" value   a supplied value
                                     | "o" key "!"         a supplied None
+                              (a repeated key: the last entry counts; keys that name no variable are allowed)
                               -> T | F | U (UndefinedComparison) | I (InvalidMarker) | ? (outside the modelled domain) | C
    k.str   text               -> I | ? | "S" str(Marker(text))
    k.eq    a b                -> I | ? | T | F        (Marker(a) == Marker(b)) *)
@@ -33,10 +34,12 @@ Definition parse_entry (s : list N) : option entry :=
   end.
 Fixpoint entries (l : list (list N)) : list entry :=
   match l with [] => [] | s :: t => match parse_entry s with Some e => e :: entries t | None => entries t end end.
+(* the entries are read like successive dict assignments (a repeated key: the LAST entry is the value); the environment model is an
+   association list in which the FIRST entry of a key counts, hence the rev *)
 Definition defaults_of (es : list entry) : list (list N * list N) :=
-  flat_map (fun e : entry => if fst e then [] else match snd (snd e) with Some v => [(fst (snd e), v)] | None => [] end) es.
+  rev (flat_map (fun e : entry => if fst e then [] else match snd (snd e) with Some v => [(fst (snd e), v)] | None => [] end) es).
 Definition overrides_of (es : list entry) : envmap :=
-  flat_map (fun e : entry => if fst e then [snd e] else []) es.
+  rev (flat_map (fun e : entry => if fst e then [snd e] else []) es).
 
 Definition show_eres (r : eres) : list N :=
   match r with EBool true => [84] | EBool false => [70] | EUndef => [85] | ECrash => [67] end.
